@@ -17,6 +17,7 @@
 extern "C" {
 #include "logger.h"
 #include "device/hal/device.manager.h"
+#include "device/kit/driver.h"
 #include "device/hal/camera.h"
 #include "device/hal/storage.h"
 #include "device/props/device.h"
@@ -332,6 +333,21 @@ int main(int argc, char** argv)
         for (auto& kv : viols) printf("VIOLATION C12:%s %s | %s\n", kv.second.clause.c_str(), kv.second.detail.c_str(), kv.second.spec.c_str());
         if (viols.empty()) printf("RESULT ok (pattern %s, kind %d)\n", printable(pat).c_str(), rkind);
         return viols.empty() ? 0 : 1;
+    }
+    // each driver's own describe(): every index at or beyond its device count is an error (the manager only asks below the count)
+    {
+        std::set<struct Driver*> seen;
+        for (auto& id : ENUM) {
+            struct Driver* drv = nullptr;
+            try { drv = device_manager_get_driver(&dm, &id); } catch (...) { viol("exception-escaped", "device_manager_get_driver let an exception escape", id.name); }
+            if (!drv || !seen.insert(drv).second || !drv->device_count || !drv->describe) continue;
+            uint32_t n = drv->device_count(drv);
+            for (uint64_t i : { (uint64_t)n, (uint64_t)n + 1, (uint64_t)n + 2, (uint64_t)255, (uint64_t)256, (uint64_t)65536, (uint64_t)1 << 32, ((uint64_t)1 << 32) + 1, ~(uint64_t)0 }) {
+                if (i < n) continue;
+                DeviceIdentifier o; memset(&o, 0, sizeof o);
+                if (drv->describe(drv, &o, i) == Device_Ok) viol("driver-describes-out-of-range-index", "a driver's describe() succeeded for an index >= its device_count", std::string(id.name) + " driver, index=" + std::to_string(i));
+            }
+        }
     }
     // opening every enumerated identifier yields a device of that kind and name
     for (auto& id : ENUM) {
